@@ -28,6 +28,14 @@ struct Scenario {
 }
 
 impl Scenario {
+    /// "after" = after serving requests; "lateNN" = the same, but only once the tracker has been up for NN seconds
+    /// (the property says "at any moment of its life": a supervision loop may treat late failures differently)
+    fn is_after(&self) -> bool {
+        self.moment == "after" || self.moment.starts_with("late")
+    }
+    fn late_s(&self) -> u64 {
+        self.moment.strip_prefix("late").and_then(|x| x.parse().ok()).unwrap_or(0)
+    }
     fn id(&self) -> String {
         format!("{}/{}{}/{}/{}/n{}", self.tracker, self.worker, self.index, self.fault, self.moment, self.workers)
     }
@@ -44,11 +52,11 @@ impl Scenario {
             ("udp", "statistics", _) => "udp.statistics.loop".to_string(),
             ("udp", "signals", _) => "udp.signals.loop".to_string(),
             (t, "socket", "panic_task") => format!("{}.socket.connection", t),
-            (t, "socket", "panic") if self.moment == "after" => format!("{}.socket.accept", t),
-            (t, "socket", "return_ok") if self.moment == "after" && t == "http" => format!("{}.socket.accept", t),
-            (t, "socket", _) if self.moment == "after" && t == "ws" => format!("{}.socket.accept", t),
+            (t, "socket", "panic") if self.is_after() => format!("{}.socket.accept", t),
+            (t, "socket", "return_ok") if self.is_after() && t == "http" => format!("{}.socket.accept", t),
+            (t, "socket", _) if self.is_after() && t == "ws" => format!("{}.socket.accept", t),
             (t, "socket", _) => format!("{}.socket.start", t),
-            (t, "swarm", "panic") if self.moment == "after" => format!("{}.swarm.request", t),
+            (t, "swarm", "panic") if self.is_after() => format!("{}.swarm.request", t),
             (t, "swarm", _) => format!("{}.swarm.start", t),
             (t, "signals", _) => format!("{}.signals.loop", t),
             _ => return None,
@@ -77,7 +85,7 @@ fn child(args: &Args) -> ! {
     if let Some(probe) = sc.probe_name() {
         let target_thread = sc.thread_name();
         let fault = sc.fault.clone();
-        let needs_arming = sc.moment == "after";
+        let needs_arming = sc.is_after();
         aquatic_common::verif::set_probe_handler(Some(Arc::new(move |name: &str| {
             if name != probe {
                 return 0;
@@ -235,6 +243,12 @@ fn child(args: &Args) -> ! {
         }
         std::thread::sleep(Duration::from_millis(300));
         traffic(3);
+        // late faults: keep the tracker busy with a little traffic until it has been up long enough
+        let up_since = Instant::now();
+        while up_since.elapsed() < Duration::from_secs(sc.late_s()) && !done(&result) {
+            traffic(1);
+            std::thread::sleep(Duration::from_millis(700));
+        }
         ARMED.store(true, Ordering::SeqCst);
     }
     // poke: traffic and signals until the probe fired (or 12 s)
@@ -245,7 +259,7 @@ fn child(args: &Args) -> ! {
                 libc::kill(libc::getpid(), libc::SIGUSR1);
             }
         }
-        if sc.moment == "after" || sc.fault == "panic_task" {
+        if sc.is_after() || sc.fault == "panic_task" {
             traffic(1);
         }
         std::thread::sleep(Duration::from_millis(100));
@@ -279,6 +293,14 @@ fn scenarios(thorough: bool) -> Vec<Scenario> {
                 v.push(mk(tracker, "socket", if fault == "bind_fail" { 0 } else { i }, fault, moment, n));
             }
         }
+        // late in the tracker's life
+        if tracker == "udp-mio" || thorough {
+            v.push(mk(tracker, "socket", 0, "panic", "late17", 1));
+        }
+        if thorough {
+            v.push(mk(tracker, "socket", 1, "panic", "late40", 2));
+            v.push(mk(tracker, "socket", 0, "return_ok", "late80", 1));
+        }
         if tracker == "udp-mio" || thorough {
             for worker in ["cleaning", "statistics", "signals"] {
                 for fault in ["panic", "return_ok", "return_err"] {
@@ -310,6 +332,13 @@ fn scenarios(thorough: bool) -> Vec<Scenario> {
                 v.push(mk(tracker, "swarm", *i, "return_err", "first", *n));
                 v.push(mk(tracker, "swarm", *i, "panic", "first", *n));
             }
+        }
+        // late in the tracker's life
+        v.push(mk(tracker, "socket", 0, "panic", "late17", 1));
+        if thorough {
+            v.push(mk(tracker, "swarm", 0, "panic", "late17", 1));
+            v.push(mk(tracker, "socket", 1, "panic", "late40", 2));
+            v.push(mk(tracker, "swarm", 1, "panic", "late80", 2));
         }
         v.push(mk(tracker, "socket", 0, "bind_fail", "first", 1));
         v.push(mk(tracker, "signals", 0, "panic", "first", 1));
@@ -370,10 +399,10 @@ fn main() {
                     match ch.try_wait().unwrap() {
                         Some(st) => break format!("{:?}", st),
                         None => {
-                            if t0.elapsed() > Duration::from_secs(60) {
+                            if t0.elapsed() > Duration::from_secs(90 + sc.late_s()) {
                                 let _ = ch.kill();
                                 let _ = ch.wait();
-                                break "killed after 60 s".to_string();
+                                break "killed by the harness watchdog".to_string();
                             }
                             std::thread::sleep(Duration::from_millis(50));
                         }
@@ -391,6 +420,9 @@ fn main() {
         let replay = json!({"engine":"faults","scenario":sc.id()});
         let sig_base = format!("{}.{}.{}", sc.tracker.replace('-', "_"), sc.worker, sc.fault);
         match j {
+            None if status.contains("watchdog") => {
+                report.inconclusive(format!("{}: child did not finish within the harness watchdog (machine overloaded?)", sc.id()));
+            }
             None => {
                 // the child died: the process exited, but run() did not return an error
                 report.violation(&format!("faults.{}.process_died_instead_of_returning", sig_base), "fault", format!("{}: child process ended ({}) without run() returning", sc.id(), status), replay);
